@@ -14,8 +14,8 @@ use std::sync::Mutex as StdMutex;
 use arrrg::CommandLine;
 use loomh::{Limits, begin_execution, explore, finding, finish_child, outcome, record, run_parent};
 use lsmtk::verif::{StepMode, set_step_mode};
-use lsmtk::{KeyValueStore, LsmtkOptions, WriteBatch};
-use sst::Cursor;
+use lsmtk::{KeyValueStore, LsmTree, LsmtkOptions, WriteBatch};
+use sst::{Builder, Cursor};
 use vcore::{Args, Value, json};
 
 fn options(dir: &Path, extra: &Value) -> LsmtkOptions {
@@ -652,6 +652,74 @@ fn stall_model(cfg: Value, template: PathBuf, work: PathBuf) -> impl Fn() + Sync
     }
 }
 
+/// C20 on a bare tree: the compaction threads start on an EMPTY tree (so they may already be
+/// asleep for lack of work) and one thread ingests external files until level 0 reaches the stall
+/// threshold and beyond.  Every ingest must return: the event that creates work has to wake the
+/// sleepers.  loom reports the execution in which everybody is parked.
+fn treestall_model(cfg: Value, ext: PathBuf, work: PathBuf) -> impl Fn() + Sync + Send + Clone + 'static {
+    move || {
+        let n = begin_execution();
+        let dir = work.join(format!("x{}", n % 4));
+        let _ = std::fs::remove_dir_all(&dir);
+        sync42::verif::set_wait_list_slots(4);
+        lsmtk::verif::request_stop(false);
+        let tree = match LsmTree::open(options(&dir, &cfg["options"])) {
+            Ok(t) => Arc::new(t),
+            Err(e) => {
+                finding("open-error", format!("{e}"));
+                return;
+            }
+        };
+        let compactors = cfg["compactors"].as_u64().unwrap_or(1) as usize;
+        let mut chs = vec![];
+        for c in 0..compactors {
+            let tree = Arc::clone(&tree);
+            chs.push(loom::thread::spawn(move || {
+                record(10 + c, "compaction thread start");
+                set_step_mode(StepMode::Off);
+                if let Err(e) = tree.compaction_thread() {
+                    finding("op-error:compaction", format!("{e}"));
+                }
+                record(10 + c, "compaction thread exit");
+            }));
+        }
+        let ingester = {
+            let tree = Arc::clone(&tree);
+            let files = cfg["files"].as_u64().unwrap_or(3);
+            let ext = ext.clone();
+            loom::thread::spawn(move || {
+                for i in 0..files {
+                    record(1, format!("ingest #{i} call"));
+                    if let Err(e) = tree.ingest(ext.join(format!("{i}.sst"))) {
+                        finding("op-error:ingest", format!("{e}"));
+                    }
+                    record(1, format!("ingest #{i} ret"));
+                }
+            })
+        };
+        ingester.join().unwrap();
+        lsmtk::verif::request_stop(true);
+        tree.verif_wake_all();
+        for h in chs {
+            h.join().unwrap();
+        }
+        let shape: Vec<usize> = tree.verif_levels().iter().map(|l| l.len()).collect();
+        outcome(&shape);
+        drop(tree);
+    }
+}
+
+/// External files for the tree harness: overlapping single-key files with growing timestamps.
+fn build_external_files(dir: &Path, files: u64) {
+    std::fs::create_dir_all(dir).expect("ext dir");
+    for i in 0..files {
+        let p = dir.join(format!("{i}.sst"));
+        let mut b = sst::SstBuilder::new(sst::SstOptions::default(), &p).expect("ext builder");
+        b.put(b"a", 10 + i, format!("v{i}").as_bytes()).expect("ext put");
+        b.seal().expect("ext seal");
+    }
+}
+
 fn configs(prop: &str, thorough: bool) -> Vec<Value> {
     let budget = if thorough { 600 } else { 12 };
     let lim = || json!({"bounds": [1, 2, 3, null], "max_branches": 2000000, "budget_s": budget});
@@ -734,6 +802,13 @@ fn configs(prop: &str, thorough: bool) -> Vec<Value> {
                 "template": [["put", "a", "1"], ["flush"], ["put", "b", "2"], ["flush"]],
                 "options": {"l0-write-stall-threshold-files": "2", "l0-mandatory-compaction-threshold-files": "1"},
                 "compactors": 1, "puts": 2, "flushes": 1, "limits": lim()}));
+            // compaction threads idle on an empty tree, then ingests up to and past the stall
+            // threshold (equal to, and below, the mandatory threshold)
+            for (name, stall, mand, k) in [("tree-idle-stall2-mand2-k1", "2", "2", 1u64), ("tree-idle-stall2-mand4-k1", "2", "4", 1), ("tree-idle-stall2-mand2-k2", "2", "2", 2)] {
+                v.push(json!({"harness": "treestall", "name": name, "template": [],
+                    "options": {"l0-write-stall-threshold-files": stall, "l0-mandatory-compaction-threshold-files": mand},
+                    "compactors": k, "files": 3, "limits": lim()}));
+            }
             v.push(json!({"harness": "stall", "name": "nostall-empty",
                 "template": [], "options": {"l0-write-stall-threshold-files": "2", "l0-mandatory-compaction-threshold-files": "1"},
                 "compactors": 1, "puts": 1, "flushes": 1, "limits": lim()}));
@@ -760,6 +835,11 @@ fn run_child(cfg: &Value) -> Value {
             }
             *d = true;
             skipfree::verif::set_fixed_height(1);
+            if cfg["harness"] == "treestall" {
+                // (loom types only exist inside a model: the external files are built here too)
+                build_external_files(&template.with_extension("ext"), cfg["files"].as_u64().unwrap_or(3));
+                return;
+            }
             let kvs = KeyValueStore::open(options(&template, &cfg["options"])).expect("template open");
             let mut init = BTreeMap::new();
             build_state(&kvs, &cfg["template"], &mut init);
@@ -773,6 +853,10 @@ fn run_child(cfg: &Value) -> Value {
     let v = match cfg["harness"].as_str().unwrap() {
         "rw" => explore(cfg, &limits, rw_model(cfg.clone(), template, work)),
         "stall" => explore(cfg, &limits, stall_model(cfg.clone(), template, work)),
+        "treestall" => {
+            let ext = template.with_extension("ext");
+            explore(cfg, &limits, treestall_model(cfg.clone(), ext, work))
+        }
         "cursor" => explore(cfg, &limits, cursor_model(cfg.clone(), template, work)),
         "reread" => explore(cfg, &limits, reread_model(cfg.clone(), template, work)),
         h => panic!("unknown harness {h}"),
